@@ -331,7 +331,7 @@ func c44Exec(cs c44Case) c44Run {
 				got = c44ResOf(d.DownloadIndex(ctx, op.Key))
 				direct = c44ResOf(pm.DownloadIndex(ctx, op.Key))
 			}
-			o.out = "VRes " + got.coq()
+			o.out = "VRes (" + got.coq() + ")"
 			if strings.HasPrefix(got.kind, "other") || strings.HasPrefix(direct.kind, "other") {
 				setFail("unclassified-error", fmt.Sprintf("op %d: %s / %s", i, got.kind, direct.kind))
 			}
